@@ -39,6 +39,18 @@ def _value_leaves(t):
     return {t}
 
 
+def _casts(t):
+    """target types of the astype calls on the value path of `t`"""
+    if t.op == "ite":
+        return _casts(t.args[1]) + _casts(t.args[2])
+    if t.op == "call" and t.args[0] == ".astype":
+        return [t.args[2]] + _casts(t.args[1]) if len(t.args) > 2 else _casts(t.args[1])
+    if t.op == "call" and t.args[0] in (".transpose", ".copy", "numpy.transpose", "numpy.ascontiguousarray", "numpy.asarray", "numpy.array", ".view",
+                                         ".swapaxes", "numpy.swapaxes", "numpy.moveaxis"):
+        return _casts(t.args[1])
+    return []
+
+
 def o111(ctx):
     m, fn = ctx.prog.func(RD)
     ctx.touched(RD, WR)
@@ -91,6 +103,12 @@ def o111(ctx):
             # value path: between the caller's array and the library call only type conversion and axis permutation may act
             leaves = _value_leaves(t)
             ctx.count(1, {"values handed to the library": sorted({tm.show(x)[:40] for x in leaves})} if ext == "mrc" else None)
+            casts = _casts(t)
+            ctx.count(1)
+            odd = [c_ for c_ in casts if not (c_ == sym("data_type") or (c_.op == "const" and str(c_.args[0]) in ("ref:numpy.float32", "ref:numpy.single")))]
+            if odd:
+                ctx.finding(WR, ev.node, "the only type conversions on the way to the file are the requested data_type and float64 -> float32; the data "
+                            f"are also converted to {tm.show(odd[0])[:80]} (a narrower type chosen by the writer can wrap values)", ev.node, mw)
             bad = [x for x in leaves if x != sym("volume")]
             if bad:
                 ctx.finding(WR, ev.node, "the voxel values must reach the file as they are: only the requested type conversion (astype) and the axis "
